@@ -758,7 +758,8 @@ def run(chk, tier):
         j.split_results = [j.split_results[k] for k in keep]
     chk.extra["direct_failures"] = [{"program": k[0], "level": k[1], "final": v[0], "kind": v[1], "sig": v[2]} for k, v in sorted(broken.items())][:20]
     chk.extra["direct_failures_count"] = len(broken)
-    if len(broken) > len(jobs) * len(LEVELS) // 3:
+    # (when the codec replay has already shown a violation the wreckage is its consequence: carry on and report)
+    if len(broken) > len(jobs) * len(LEVELS) // 3 and not chk.violations:
         raise vlib.MachineryError("%d of %d (program, level) pairs fail without any saved form: %s" % (len(broken), len(jobs) * 3, sorted(broken.items())[:3]))
     huge = {}
     for (pid, level, chain, kind), tf in forms.items():
